@@ -1,5 +1,7 @@
 """Shared set-up for the sequential lifecycle checks (C01, C03, C04, C08, C09, C12): an ActorPortSet whose four ports are
 local objects with *symbolic readiness*, opaque user callbacks, and helpers to drive crate coroutines."""
+import os
+import re
 import z3
 
 import mirdump
@@ -56,6 +58,19 @@ def new_interp(prog, poll_budget=1, loop_bound=6):
             return res
         return [(st, Opaque('received', info=idterm))]
     I.hooks['chan_value'] = chan_value
+
+    # `signal.to_string()` - the text comes from `impl Display for Signal` (read from the source on every run)
+    src = open(os.path.join(mirdump.REPO, 'ractor', 'src', 'actor', 'messages.rs')).read()
+    mm = re.search(r'impl\s+(?:std::fmt::)?Display\s+for\s+Signal\s*\{.*?Self::Kill\s*=>\s*\{?\s*write!\(\s*f\s*,\s*"([^"]*)"\s*\)', src, re.S)
+    kill_text = mm.group(1) if mm else None
+
+    def m_signal_to_string(I, st, f, args, fr):
+        v = models_std.deref_val(I, st, args[0])
+        if kill_text is None or not (isinstance(v, Enum) and v.variant == 'Kill'):
+            return NotImplemented
+        I.stats['models_used'].add('Signal::to_string (text of the Display impl, read from messages.rs)')
+        return I.ret(st, Str(kill_text))
+    I.override.append((re.compile(r'^<(\w+::)*Signal as ToString>::to_string$'), m_signal_to_string))
     return I
 
 
